@@ -2,8 +2,15 @@
    Statements only; every proof is `exact <lemma from Proofs/>`. *)
 From Coq Require Import ZArith List QArith Qcanon.
 From Batchie Require Import Lib.Sexp Lib.Num Model.Chunks Model.DistMat Model.Mse
-  Proofs.C07Chunks Proofs.C07DistMat Proofs.C07Mse.
+  Proofs.C07Chunks Proofs.C07DistMat Proofs.C07Mse Proofs.C07Src Generated.SrcArith.
 Import ListNotations.
+
+(* the chunk arithmetic the theorems are about IS the source's arithmetic: src_chunk_bounds is
+   translated statement by statement from get_lower_triangular_indices_chunk on every run *)
+Theorem C07_model_is_source_arithmetic : forall n k c,
+  n_lower n = src_n_lower n /\ chunk_bounds (n_lower n) k c = src_chunk_bounds n k c.
+Proof. intros n k c. split; [exact (n_lower_is_source n)|exact (chunk_bounds_is_source n k c)]. Qed.
+Print Assumptions C07_model_is_source_arithmetic.
 
 (* the chunks, concatenated in index order, are the enumeration of all pairs i>j *)
 Theorem C07_chunks_partition : forall n c, (0 < c)%nat -> concat (all_chunks n c) = lower_tri n.
